@@ -19,17 +19,28 @@ class Truth:
         self.dt, self.t0, self.sy, self.Z = dt, t0, sy, Z
         self.rain, self.level, self.et, self.events = rain, level, et, events
         self.s, self.j = s, j
+        self.removed = set()
 
     def rows(self):
         dt, t0 = self.dt, self.t0
         n = len(self.level)
         rain = [(t0 + i * dt, v) for i, v in enumerate(self.rain)]
         et = [(t0 + i * dt, self.et[i % len(self.et)]) for i in range(n + 2)]
-        level = [(t0 + i * dt, v) for i, v in enumerate(self.level)]
+        level = [(t0 + i * dt, v) for i, v in enumerate(self.level) if i not in self.removed]
         return rain, et, level
 
+    def add_gap(self, rng):
+        """drop two consecutive level samples inside a dry spell: two gap-free stretches"""
+        n = len(self.level)
+        dry = [i for i in range(3, n - 4) if self.rain[i - 1] == 0.0 and self.rain[i] == 0.0 and self.rain[i + 1] == 0.0
+               and self.rain[i + 2] == 0.0]
+        if dry:
+            i = rng.choice(dry)
+            self.removed = {i, i + 1}
+        return self
+
     def describe(self):
-        return {"dt": self.dt, "t0": self.t0, "sy": self.sy, "Z": self.Z[:60], "rain": self.rain, "level": self.level,
+        return {"removed": sorted(self.removed), "dt": self.dt, "t0": self.t0, "sy": self.sy, "Z": self.Z[:60], "rain": self.rain, "level": self.level,
                 "et": self.et, "events": self.events, "s": self.s, "j": self.j}
 
     def T(self, z):
